@@ -12,12 +12,12 @@ import (
 type TV struct {
 	IdxOf string // for index binders: the slice term this variable indexes
 	IdxK  Term   // ... and the absolute position variable
-	T   Term
-	Go  types.Type // may be nil for purely ghost values
-	Loc *PtrVal
-	SV  *StructVal
-	Nil bool // the literal nil (sort decided by context)
-	Num *big.Int
+	T     Term
+	Go    types.Type // may be nil for purely ghost values
+	Loc   *PtrVal
+	SV    *StructVal
+	Nil   bool // the literal nil (sort decided by context)
+	Num   *big.Int
 }
 
 type Env struct {
@@ -399,6 +399,12 @@ func (e *Env) trBin(x *EBin) TV {
 	case "in":
 		k := e.tr(x.L)
 		m := e.tr(x.R)
+		if _, ok := x.R.(*EOld); ok && e.old != nil {
+			// k in old(m): membership in the old contents of the map (see trIdx)
+			n := *e
+			n.st = e.old
+			return TV{T: n.member(k, m), Go: boolT}
+		}
 		return TV{T: e.member(k, m), Go: boolT}
 	}
 	l := e.tr(x.L)
@@ -729,6 +735,21 @@ func (e *Env) valueTV(v Value, t types.Type) TV {
 func (e *Env) trIdx(x *EIdx) TV {
 	v := e.tr(x.X)
 	i := e.tr(x.I)
+	// old(m)[k], old(s)[i]: maps and slices are references, but the intention of old() around a container is its old
+	// contents — the element is read from the pre-state heaps (key and index are evaluated in the current state).
+	if o, ok := x.X.(*EOld); ok && e.old != nil && v.Go != nil {
+		switch v.Go.Underlying().(type) {
+		case *types.Map, *types.Slice:
+			n := *e
+			n.st = e.old
+			_ = o
+			return n.trIdxOn(v, i)
+		}
+	}
+	return e.trIdxOn(v, i)
+}
+
+func (e *Env) trIdxOn(v, i TV) TV {
 	if v.Go != nil {
 		switch u := v.Go.Underlying().(type) {
 		case *types.Slice:
